@@ -279,7 +279,12 @@ pub fn run_rdoc(l: &[Sexp]) -> (String, String) {
             Ok(s) => to_hex(s.as_bytes()),
             Err(_) => "PANIC".to_string(),
         };
-        Ok(format!("RDOC\t{}\t{}", html, roff))
+        // the console renderer on the same document (monochrome, width 100)
+        let console = match std::panic::catch_unwind(std::panic::AssertUnwindSafe(|| doc.monochrome(full))) {
+            Ok(s) => to_hex(s.as_bytes()),
+            Err(_) => "PANIC".to_string(),
+        };
+        Ok(format!("RDOC\t{}\t{}\t{}", html, roff, console))
     };
     match body() {
         Ok(s) => (id, s),
